@@ -88,6 +88,19 @@ chk("C14", "proof",
     "Coq proof over hand model; correspondence by vm_compute on recorder call logs",
     "DESIGN.md section 4 C14")
 
+chk("C12", "proof",
+    "Proved (Coq, closed under the global context) for arbitrary plug-ins (any state type, step function and reports), any enabled set with "
+    "distinct ids and any event sequence, over the engine model Model/Dispatch.v: what a plug-in reports inside a set equals what it reports "
+    "alone; adding or removing other plug-ins changes nothing for it; a plug-in that is not enabled contributes nothing. The model's premise - "
+    "private per-instance state, unmodified payload - is itself checked on every run: the obligation no_shared_state over Gen/SharedState.v "
+    "(regenerated by static analysis of every rule and helper class: class-level or module-level mutable state), recorders dispatched first "
+    "and last seeing identical tokens with every rule enabled, and the union law evaluated on the implementation (all rules, default set, each "
+    "of the 46 rules alone, default minus each) over the repository's own test corpus and trigger-line documents.",
+    "Trusted: Coq kernel, translator shared_state.py (syntactic analysis: aliasing through other objects is not seen), recorder plug-ins, API "
+    "driver. The engine model abstracts rules completely; that real rules are isolated is established by the three checks above, not proved.",
+    "Coq proof over abstract engine; generated no-shared-state obligation; union law by enumeration",
+    "DESIGN.md section 4 C12")
+
 NOT_YET = {}
 
 
